@@ -1181,7 +1181,7 @@ def long_observations(ctx):
         obs.append(observe_long_hist(rng, kinds, shs[0], 300 if memo else 400))
         if memo and (not ctx.quick or k % 4 == 0):
             obs.append(observe_long_hist(rng, kinds, shs[1], 1100))
-    for width in ([17, 66, 257] if ctx.quick else [17, 65, 66, 101, 257, 1026]):
+    for width in ([17, 66, 257] if ctx.quick else [17, 65, 66, 101, 257, 513]):
         obs.append(observe_wide_bind(rng, width))
     for k, kind in enumerate(['cache'] + ([] if ctx.quick else ['try_back', 'kwargs_support', 'try_zero_verbose'])):
         obs.append(observe_long_deco(rng, kind, ('positional', 'mixed', 'keyword', 'str')[k], 300))
@@ -1296,7 +1296,10 @@ def c2s(ctx, rep, nbind, nhist, nmemo, nargs, ndeco):
     obs += [observe_args(rng, 10 if ctx.quick else 16) for _ in range(nargs)]
     obs += [observe_deco(rng, 14 if ctx.quick else 24) for _ in range(ndeco)]
     nshort = len(obs)
-    obs += long_observations(ctx)                             # scaled histories: one object, hundreds / thousands of calls
+    longs = long_observations(ctx)                            # scaled histories: one object, hundreds / thousands of calls
+    obs += [o for o in longs if o['part'] == 'bind']          # (one call with very many members)
+    nwide = len(obs) - nshort
+    obs += [o for o in longs if o['part'] != 'bind']
     ctx.evals += sum(1 + 3 * len(o['layers']) if o['part'] == 'bind' else sum(1 for e in o['events'] if e.get('op') != 'mutate') for o in obs)
     nreal = len(obs)
     obs += canaries(obs[:nshort])
@@ -1306,9 +1309,17 @@ def c2s(ctx, rep, nbind, nhist, nmemo, nargs, ndeco):
     if len(obs) != nreal + 8:
         raise Machinery('could not build the three corrupted long observations')
     bad = {}
-    for lo in range(0, len(obs), CHUNK):                      # one TLC start per chunk keeps the log inside TLC's heap
-        for i, clause in ctx.validate('Trace_Decorators', obs[lo:lo + CHUNK]):
-            bad[lo + i] = clause
+    # the long histories are behaviours of Trace_DecoratorsLong (one step per recorded event); everything else is a batch
+    batch = [k for k, o in enumerate(obs) if 'events' not in o or 'long' not in o]
+    hists = [k for k, o in enumerate(obs) if 'events' in o and 'long' in o]
+    for lo in range(0, len(batch), CHUNK):                    # one TLC start per chunk keeps the log inside TLC's heap
+        for i, clause in ctx.validate('Trace_Decorators', [obs[k] for k in batch[lo:lo + CHUNK]]):
+            bad[batch[lo + i - 1] + 1] = clause
+    nev = sum(len(obs[k]['events']) for k in hists)
+    for i, clause in ctx.validate('Trace_DecoratorsLong', [obs[k] for k in hists], expect_states=len(hists) + sum((len(obs[k]['events']) + 31) // 32 for k in hists)):
+        bad[hists[i - 1] + 1] = clause
+    ctx.extra['long_histories'] = {'histories': len(hists), 'events': nev, 'wide_calls': nwide,
+                                   'longest': max(len(obs[k]['events']) for k in hists)}
     for i in range(nreal + 1, len(obs) + 1):
         if i not in bad:
             raise Machinery('Trace_Decorators accepted a corrupted %s observation' % obs[i - 1]['part'])
@@ -1330,6 +1341,7 @@ def c2s(ctx, rep, nbind, nhist, nmemo, nargs, ndeco):
             ctx.note(('c2s-memo', json.dumps(o['events'], sort_keys=True)))
         elif o['part'] in ('args', 'deco') and len(o['events']) > 2:
             ctx.note(('c2s-' + o['part'], json.dumps(o['events'], sort_keys=True)))
+    ctx.sample({'c2s_long_history': dict(obs[hists[0]], events=obs[hists[0]]['events'][:2] + obs[hists[0]]['events'][-2:])}, limit=9)
     ctx.sample({'c2s_history': obs[nbind + nhist // 2]})
     ctx.sample({'c2s_memo': obs[nbind + nhist + nmemo // 2]})
     ctx.sample({'c2s_args': obs[nbind + nhist + nmemo + nargs // 2]}, limit=9)
